@@ -32,7 +32,8 @@ RULE = ("seeded schedules: list of (stream, burst, yields) steps over N=15..60 i
         "distinct = canonical schedule JSON; non-trivial = >=2 streams and >=10 outputs decoded")
 B = 1000
 REQUIRED_BUCKETS = ["kind:flat", "kind:composed", "kind:3phase", "different-first-timestamps", "reader-late",
-                    "reader-before-data", "burst>=20", "second-reader", "lagging-stream>=20"]
+                    "reader-before-data", "burst>=20", "second-reader", "lagging-stream>=20",
+                    "stream-seconds-behind-the-others"]
 REQUIRED_COUNTERS = ["outputs_decoded", "schedules_run"]
 ASSUMPTIONS = ["all streams carry one sample per index (missing values are C13/C19)"]
 
@@ -70,7 +71,9 @@ def gen(rng: Any, tier: str, i: int) -> Any:
     N = rng.randint(15, 60)
     steps = []
     for _ in range(rng.randint(40, 400)):
-        steps.append([rng.randrange(n), rng.choice([1, 1, 1, 5, 20, 35]), rng.choice([0, 0, 1, 5])])
+        # (stream, burst, loop yields, seconds of virtual time that pass before the next delivery)
+        steps.append([rng.randrange(n), rng.choice([1, 1, 1, 5, 20, 35]), rng.choice([0, 0, 1, 5]),
+                      rng.choice([0.0] * 12 + [0.5, 6.0, 40.0])])
     return {"kind": kind, "n": n, "groups": groups, "first": first, "N": N, "steps": steps,
             "reader_at": rng.choice([0, 0, 3, 10, 50]), "second_reader_at": rng.choice([None, 20, 60, 150])}
 
@@ -108,7 +111,9 @@ async def _drive(case: dict[str, Any], out: dict[str, Any]) -> None:
     rx2 = None
     max_burst = 0
     max_lag = 0
-    for step_no, (i, burst, yields) in enumerate(case["steps"] + [[j, 1000, 5] for j in range(n)] * 4):
+    long_pauses = 0
+    for step_no, (i, burst, yields, *rest) in enumerate(case["steps"] + [[j, 1000, 5] for j in range(n)] * 4):
+        pause = rest[0] if rest else 0.0
         # sub-engines of composed/3-phase engines start at build time and buffer (capacity 50) towards the
         # not yet started outer engine: attach the reader before that internal backlog can overflow
         internal_full = case["kind"] != "flat" and any(nxt[j] - case["first"][j] >= 40 for j in range(n))
@@ -132,6 +137,10 @@ async def _drive(case: dict[str, Any], out: dict[str, Any]) -> None:
         max_lag = max(max_lag, max(nxt) - min(nxt))
         for _ in range(yields):
             await asyncio.sleep(0)
+        if pause:
+            if pause >= 5.0 and max(nxt) > min(nxt):
+                long_pauses += 1
+            await asyncio.sleep(pause)
         if min(nxt) >= N:
             break
     if rx is None:
@@ -155,6 +164,7 @@ async def _drive(case: dict[str, Any], out: dict[str, Any]) -> None:
             lst.append(r.consume())
         out[name] = lst
     out["max_burst"] = max_burst
+    out["long_pauses"] = long_pauses
     out["max_lag"] = max_lag
     try:
         await eng._stop()  # noqa: SLF001
@@ -184,6 +194,8 @@ def check(case: dict[str, Any], rec: Any) -> None:
         rec.bucket("burst>=20")
     if out.get("max_lag", 0) >= 20:
         rec.bucket("lagging-stream>=20")
+    if out.get("long_pauses", 0):
+        rec.bucket("stream-seconds-behind-the-others")
     phase_aligned = True
     if case["kind"] == "3phase":
         per = n // 3
